@@ -8,7 +8,7 @@ from pyvc.spec import ContractSet
 
 HOME = os.environ.get('VERIF_HOME', os.path.dirname(os.path.dirname(os.path.abspath(__file__))))
 
-_MODULES = ['ghosts', 'externals', 'datatypes', 'consensus', 'coinstate', 'manager', 'network', 'mining', 'pow', 'local_peer', 'lemmas']
+_MODULES = ['ghosts', 'externals', 'datatypes', 'consensus', 'coinstate', 'manager', 'network', 'mining', 'pow', 'local_peer', 'framing', 'lemmas']
 _cset = None
 
 
@@ -49,6 +49,10 @@ def _tx_key(eng, x, st):
 
 # level / notes per property; functions and lemmas come from the props tags on the contracts
 PROPS = {
+    'C11': dict(level='proof', native=['native.c11'],
+                explanation="MessageReceiver.receive against the framing specification parse(): delivered payloads and the "
+                            "pending residue are a function of (pending bytes + chunk); the recursive call uses the "
+                            "function's own contract; fragmentation independence is the extension lemma of parse"),
     'C20': dict(level='proof',
                 explanation="exceptional post-condition 'nothing escapes' of the selector-event handler and of disconnect; "
                             "handler frames by reachability over the real AST; rejection paths of the two state-changing "
@@ -153,6 +157,7 @@ PARALLEL = {
     'skepticoin.networking.manager.ChainManager.set_coinstate': 3,
     'skepticoin.networking.manager.ChainManager.add_transaction_to_pool': 3,
     'C02.apply-block-total': 3,
+    'skepticoin.networking.remote_peer.MessageReceiver.receive': 12,
 }
 
 
